@@ -191,7 +191,8 @@ def member_table(rep, idx, sig, table):
     aliases = dict(property_aliases(idx, sig))
     # self._x  ->  what the constructor stored there; locals -> their defining expressions
     stored = {ir.parse(k): v[0] for k, v in ctor.stores.items() if k.startswith("self._")}
-    local = {('name', k): v for k, v in ctor.t.final_env.items() if isinstance(v, tuple) and v[0] not in ('localfn',) and k not in ctor.fi.params}
+    local = {('name', k): v for k, v in ctor.t.final_env.items() if isinstance(v, tuple) and v[0] not in ('localfn',) and
+             (k not in ctor.fi.params or v != ('name', k))}
 
     class _Ctx(ir.NormCtx):
         pass
@@ -214,11 +215,31 @@ def member_table(rep, idx, sig, table):
                      wrong=None if dynamic_members(sig) else "member is not declared")
             continue
         f_, sh, conds, ln, arr = decl[0]
-        ok_flow = f_ == flow
-        ok_shape = resolve(sh) == resolve(ir.parse(shape))
+        presence_witness = None
+        ok_flow = all(x[0] == flow for x in decl)
+        ok_shape = all(resolve(x[1]) == resolve(ir.parse(shape)) for x in decl)
         want_conds = [] if guard is None else [(resolve(ir.parse(guard)), True)]
         got_conds = [(resolve(c_), p) for c_, p in conds]
-        ok_guard = got_conds == want_conds
+        ok_guard = len(decl) == 1 and got_conds == want_conds
+        if not ok_guard:
+            # presence as a Boolean function: OR over the declarations of the conjunction of their conditions, compared with
+            # the role's guard on every valuation (enum comparisons of one subject are mutually exclusive; enum methods
+            # such as readable() are evaluated from their definition)
+            from ..core import dl
+            eng = ctor.eng
+
+            def conj(cs):
+                return dl.f_and(*[eng.cond(resolve(c_)) if p_ else dl.f_not(eng.cond(resolve(c_))) for c_, p_ in cs]) if cs else dl.T
+            try:
+                got_f = dl.f_or(*[conj(x[2]) for x in decl])
+                want_f = eng.cond(resolve(ir.parse(guard))) if guard is not None else dl.T
+                same, rows, wit = dl.equivalent(eng, got_f, want_f)
+                if same:
+                    ok_guard = True
+                else:
+                    presence_witness = wit
+            except Exception:
+                pass
         detail = []
         if not ok_flow:
             detail.append(f"declared {f_}, role needs {flow}")
@@ -229,6 +250,8 @@ def member_table(rep, idx, sig, table):
         wrong = None
         if not ok_flow:
             wrong = "wrong direction"
+        elif not ok_guard and presence_witness is not None:
+            wrong = f"present under the wrong condition: differs from `{guard or 'always'}` {presence_witness}"
         elif not ok_guard and not dynamic_members(sig):
             wrong = "present under the wrong condition"
         # a shape expression that differs from the role table may still denote the same shape (rebound parameter, cached
